@@ -39,7 +39,7 @@ def noLookup : PyExpr → Bool
   | .unsupported _ => true
   | .keyword _ v => noLookup v
   | .comp t it ifs _ => noLookup t && noLookup it && noLookupL ifs
-  | .param _ _ d => noLookupO d
+  | .param _ ann d => noLookupO ann && noLookupO d
   | .dictItem k v => noLookupO k && noLookup v
   | .cmpRhs _ e => noLookup e
 def noLookupL : List PyExpr → Bool
@@ -115,7 +115,8 @@ theorem unxf_id : ∀ (e : PyExpr), noLookup e = true → unxf e = e
   | .comp t it ifs a, h => by
       simp only [noLookup, Bool.and_eq_true] at h
       simp [unxf, unxf_id t h.1.1, unxf_id it h.1.2, unxfL_id ifs h.2]
-  | .param n ann d, h => by simp only [noLookup] at h; simp [unxf, unxfO_id d h]
+  | .param n ann d, h => by
+      simp only [noLookup, Bool.and_eq_true] at h; simp [unxf, unxfO_id ann h.1, unxfO_id d h.2]
   | .dictItem k v, h => by
       simp only [noLookup, Bool.and_eq_true] at h; simp [unxf, unxfO_id k h.1, unxf_id v h.2]
   | .cmpRhs op e, h => by simp only [noLookup] at h; simp [unxf, unxf_id e h]
@@ -187,7 +188,8 @@ theorem unxf_xf : ∀ (e : PyExpr) (L : List (List Str)), noLookup e = true → 
   | .comp t it ifs a, L, h => by
       simp only [noLookup, Bool.and_eq_true] at h
       simp [xf, unxf, unxf_xfTarget t L h.1.1, unxf_xf it L h.1.2, unxf_xfL ifs L h.2]
-  | .param n ann d, L, h => by simp only [noLookup] at h; simp [xf, unxf, unxf_xfO d L h]
+  | .param n ann d, L, h => by
+      simp only [noLookup, Bool.and_eq_true] at h; simp [xf, unxf, unxfO_id ann h.1, unxf_xfO d L h.2]
   | .dictItem k v, L, h => by
       simp only [noLookup, Bool.and_eq_true] at h; simp [xf, unxf, unxf_xfO k L h.1, unxf_xf v L h.2]
   | .cmpRhs op e, L, h => by simp only [noLookup] at h; simp [xf, unxf, unxf_xf e L h]
